@@ -6,8 +6,20 @@ pending write transaction + savepoints; crash = discard pending). ASSUMED, NOT M
 any-store commit is atomic and durable (fsync); see notes/areas/store.md.
 -/
 import AnySyncModel.Store.Lemmas
+import AnySyncModel.Generated.StoreShape
 
 namespace AnySync.Store
+
+/-! ## the source still has the shape the model mirrors -/
+
+/-- obligation on the regenerated fragment (harness/areas/store/extract.go reads the persistence
+functions of /repo with go/ast): `storage.AddAll`, `AddAllNoError`, ACL `AddAll`, `CreateStorage`,
+`storage.Delete`, `spacestorage.Create` and `createStorageAndDoInTx` each open one write transaction,
+pass `tx.Context()` to every storage call, and decide commit/rollback on their (named) error result;
+the deferred storage is forgotten when its creating transaction fails; `AddRawRecord` persists before
+it swaps; `ObjectTree.Delete` flags after it deleted; local and remote add realign with storage after
+a failed write. `traceOf` and the live-object protocols below are the model of exactly this shape. -/
+theorem shape_ok : Generated.Store.allOk = true := by decide
 
 /-! ## the transaction layer -/
 
